@@ -9,6 +9,7 @@
 """
 from __future__ import annotations
 
+import os
 import shutil
 import tempfile
 
@@ -96,6 +97,14 @@ def outcome(rr, raw_ctx=None):
     return ("raise", rr.exc_name, str(rr.exc))
 
 
+def _safe(o):
+    """repr of an outcome that never calls a hostile hook."""
+    try:
+        return repr(tuple(_plainh(x) for x in o))[:600]
+    except Exception as exc:  # pragma: no cover
+        return f"<unrepresentable outcome: {type(exc).__name__}>"
+
+
 def same(a, b):
     from vlib import account
 
@@ -145,9 +154,9 @@ def check_case(run, case, detail, history, g, scratch):
     if not same(outcome(base), outcome(traced)):
         kind = f"{outcome(base)[0]}_vs_{outcome(traced)[0]}"
         hostile = sorted({v[1] for v in ctx_spec.values() if isinstance(v, tuple)})
-        run.violation(f"tracing_changes_outcome:{kind}" + (":hostile_" + "+".join(hostile) if hostile else ""),
+        run.violation(f"tracing_changes_outcome:{kind}" + (":with_hostile_values" if hostile else ""),
                       f"untraced run {outcome(base)[:2]} but traced run (detail={detail}) {outcome(traced)[:2]}",
-                      dict(witness, untraced=repr(outcome(base))[:600], traced=repr(outcome(traced))[:600]))
+                      dict(witness, untraced=_safe(outcome(base)), traced=_safe(outcome(traced))))
     # ---- (2) reproducibility: fresh pipelines, with a history in between
     for h in history:
         account.real_run(h["nodes"], h["data"], h["ctx"], scratch=scratch)
@@ -166,14 +175,32 @@ def check_case(run, case, detail, history, g, scratch):
         pipe = account.build_pipeline(nodes)
     except Exception:
         return
-    r1, ra = real(detail, pipeline=pipe)
+    # one trace driver shared by both runs (directory mode: one file per run), as a long-lived Pipeline would have
+    from semantiva.trace.drivers.jsonl import JsonlTraceDriver
+    import tempfile as _tf
+
+    shared_dir = _tf.mkdtemp(prefix="shared-driver-", dir=scratch)
+    shared = JsonlTraceDriver(shared_dir, detail=detail)
+
+    def real_shared():
+        before = set(os.listdir(shared_dir))
+        pipe.trace = shared
+        r = account.real_run(nodes, data, materialise(ctx_spec), scratch=scratch, pipeline=pipe, trace=shared)
+        new = sorted(set(os.listdir(shared_dir)) - before)
+        recs = []
+        for f in new:
+            recs += tc.load_file(os.path.join(shared_dir, f))[0]
+        return r, recs
+
+    r1, ra = real_shared()
     for h in history[:2]:
         account.real_run(h["nodes"], h["data"], h["ctx"], scratch=scratch)
-    r2, rb = real(detail, pipeline=pipe)
+    r2, rb = real_shared()
+    shutil.rmtree(shared_dir, ignore_errors=True)
     run.count("reused_pipeline_pairs")
     if not same(outcome(r1), outcome(r2)):
         run.violation("reused_pipeline_outcome_differs", f"run 1 {outcome(r1)[:2]} vs run 2 {outcome(r2)[:2]} of one Pipeline object",
-                      dict(witness, first=repr(outcome(r1))[:400], second=repr(outcome(r2))[:400]))
+                      dict(witness, first=_safe(outcome(r1)), second=_safe(outcome(r2))))
     na = [tc.normalise(r) for r in ra or []]
     nb = [tc.normalise(r) for r in rb or []]
     if na != nb:
